@@ -31,7 +31,7 @@ ASSUMPTIONS = [
     "float agreement is judged to 1e-9 relative + 1e-12 absolute; counts are exact",
 ]
 REQUIRED = {"all": ["single_residues", "residue_pairs", "random_sequences", "whitespace_presentations",
-                    "ppii_scale_switches", "longer_than_1000", "salted_objects"]}
+                    "ppii_scale_switches", "longer_than_1000", "salted_objects", "sweep_sequences"]}
 NRANDOM = {"quick": 4000, "thorough": 30000}
 
 
@@ -41,6 +41,7 @@ def cases(tier, seed):
     for a in M.AA:
         for b in M.AA:
             yield {"s": a + b, "kind": "pair"}
+    yield {"s": "", "kind": "sweep", "count": 700 if tier == "quick" else 2500}
     for w in ["ALA", "MET", "GLYGLY", "METSERLYS", "HISTHRVALALA", "TYRILEPHEASN", "SERMETLYS", "LAA", "README", "ASP", "LYSARG"]:
         yield {"s": w, "kind": "random", "o": 11}
     rng = gen.sub_rng(seed, ID)
@@ -121,7 +122,35 @@ def observe(S, pres, order_seed, rep):
     return out
 
 
+def judge_sweep(case, rep, S):
+    """Hundreds of distinct sequences in ONE process, then the first ones again (same strings, new objects)."""
+    rng = gen.sub_rng(0, ID, "sweep")
+    seqs = []
+    seen = set()
+    while len(seqs) < case["count"]:
+        s = gen.rand_seq(rng, hi=40)
+        if s not in seen:
+            seen.add(s)
+            seqs.append(s)
+    for j, s in enumerate(seqs + seqs[:150]):
+        ref = reference(s)
+        o = S["SP"](s)
+        got = {"fractions": o.get_amino_acid_fractions(), "fraction_disorder_promoting": o.get_fraction_disorder_promoting(),
+               "FCR": o.get_FCR(), "mean_hydropathy": o.get_mean_hydropathy(), "countPos": o.get_countPos()}
+        rep.cnt("sweep_sequences")
+        ok = (isinstance(got["fractions"], dict) and all(M.close(got["fractions"].get(a), ref["fractions"][a]) for a in M.AA)
+              and M.close(got["fraction_disorder_promoting"], ref["fraction_disorder_promoting"]) and M.close(got["FCR"], ref["FCR"])
+              and M.close(got["mean_hydropathy"], ref["mean_hydropathy"]) and got["countPos"] == ref["countPos"])
+        if not ok:
+            rep.viol("value:after_many_sequences", "sequence #%d of a sweep over %d distinct sequences in one process%s: %s answers %r, definitions give %r" % (
+                j, len(seqs), " (second visit of the same string)" if j >= len(seqs) else "", s,
+                {k: v for k, v in got.items() if k != "fractions"}, {k: ref[k] for k in got if k != "fractions"}), sig={"second_visit": j >= len(seqs)})
+            return
+
+
 def judge(case, rep, S):
+    if case["kind"] == "sweep":
+        return judge_sweep(case, rep, S)
     pres = case["s"]
     word = "".join(ch for ch in pres.upper() if not ch.isspace())
     rep.cnt({"single": "single_residues", "pair": "residue_pairs", "random": "random_sequences"}[case["kind"]])
